@@ -524,13 +524,23 @@ func runC05(e *core.Env, n int) {
 		sc := &Script{Kind: ClientStream}
 		sc.Sender = []Op{{Op: "send", Msg: &tpb.Message{Payload: []byte("q")}}, {Op: "close"}}
 		sc.Handler = []Op{{Op: "recvall"}, {Op: "send", Msg: &tpb.Message{Payload: []byte("one")}}, {Op: "send", Msg: &tpb.Message{Payload: []byte("two")}}}
-		if r.Intn(2) == 0 {
+		single := i%3 == 2
+		if single {
+			// or: exactly one response, then trailers and a failure (several final frames for a client that
+			// asked for the headers first)
+			sc.Handler = sc.Handler[:2]
+		}
+		if single || r.Intn(2) == 0 {
 			sc.Handler = append(sc.Handler, Op{Op: "settrl", MD: metadata.MD{"t": {"v"}}})
 		}
-		if r.Intn(2) == 0 {
-			sc.Ret = Ret{How: "status", Code: uint32(1 + r.Intn(16)), Msg: "failed after responding twice"}
+		if single || r.Intn(2) == 0 {
+			sc.Ret = Ret{How: "status", Code: uint32(1 + r.Intn(16)), Msg: "failed after responding"}
 		}
 		sc.Receiver = []Op{{Op: "header"}, {Op: "gate", Gate: "handler-returned"}, {Op: "recv"}, {Op: "recv"}}
+		if single {
+			// one receive is all a generated CloseAndRecv does: it consumes the call
+			sc.Receiver = sc.Receiver[:3]
+		}
 		run := c.Svc.NewRun(sc, c.Name)
 		done := make(chan struct{})
 		go func() {
